@@ -11,7 +11,7 @@ open GoluaVerif.Model.CallCtx
 /-- what one run (of an item or a body) guarantees -/
 structure Good (a a' : Acc) (ex : Exit) : Prop where
   inv : Inv a'.st
-  parents : a'.st.parents = a.st.parents
+  parents : LowerL a'.st.parents a.st.parents
   hard : a'.st.cur.hard = a.st.cur.hard
   live : (∀ r, ex ≠ .killed r) → a'.st.cur.live = true
   killed : ∀ r, ex = .killed r → a'.st.cur.status = StatusKilled
@@ -29,7 +29,7 @@ theorem status_of_live {f : Frame} (h : f.live = true) : f.status = StatusLive :
 
 /-- a local operation on a live frame: `ok`/`crash` leave it live, `terminated` leaves it killed -/
 theorem local_step {s : St} (o : Op) (ho : localOp o = true) (hl : s.cur.live = true) :
-    (step s o).1.parents = s.parents ∧
+    LowerL (step s o).1.parents s.parents ∧
     ((step s o).2 ≠ .terminated → (step s o).1.cur.live = true) ∧
     ((step s o).2 = .terminated → (step s o).1.cur.status = StatusKilled) := by
   cases o with
@@ -38,7 +38,7 @@ theorem local_step {s : St} (o : Op) (ho : localOp o = true) (hl : s.cur.live = 
   | reqCpu n =>
     show _ ∧ ((s.cur.requireCPU n).2 ≠ .terminated → (s.cur.requireCPU n).1.live = true) ∧
       ((s.cur.requireCPU n).2 = .terminated → (s.cur.requireCPU n).1.status = StatusKilled)
-    refine ⟨rfl, ?_⟩
+    refine ⟨LowerL.refl _, ?_⟩
     rcases requireCPU_live s.cur n hl with ⟨_, e⟩ | ⟨_, _, e⟩ | ⟨_, _, _, e⟩ <;> rw [e]
     · exact ⟨fun _ => hl, (fun h => nomatch h)⟩
     · exact ⟨fun h => absurd rfl h, fun _ => rfl⟩
@@ -46,29 +46,27 @@ theorem local_step {s : St} (o : Op) (ho : localOp o = true) (hl : s.cur.live = 
   | reqMem n =>
     show _ ∧ ((s.cur.requireMem n).2 ≠ .terminated → (s.cur.requireMem n).1.live = true) ∧
       ((s.cur.requireMem n).2 = .terminated → (s.cur.requireMem n).1.status = StatusKilled)
-    refine ⟨rfl, ?_⟩
+    refine ⟨LowerL.refl _, ?_⟩
     rcases requireMem_live s.cur n hl with ⟨_, e⟩ | ⟨_, _, e⟩ | ⟨_, _, _, e⟩ <;> rw [e]
     · exact ⟨fun _ => hl, (fun h => nomatch h)⟩
     · exact ⟨fun h => absurd rfl h, fun _ => rfl⟩
     · exact ⟨fun _ => hl, (fun h => nomatch h)⟩
   | relMem n =>
-    show _ ∧ ((s.cur.releaseMem n).2 ≠ .terminated → (s.cur.releaseMem n).1.live = true) ∧
-      ((s.cur.releaseMem n).2 = .terminated → (s.cur.releaseMem n).1.status = StatusKilled)
-    refine ⟨rfl, ?_⟩
-    rcases releaseMem_cases s.cur n with ⟨_, e⟩ | ⟨_, _, e⟩ | ⟨_, _, e⟩ <;> rw [e]
-    · exact ⟨fun _ => hl, (fun h => nomatch h)⟩
-    · exact ⟨fun _ => hl, (fun h => nomatch h)⟩
-    · exact ⟨fun _ => hl, (fun h => nomatch h)⟩
+    have hlow := releaseStack_lower s.cur s.parents n
+    have hnt := releaseStack_not_terminated s.cur s.parents n
+    refine ⟨hlow.2, fun _ => ?_, fun h => absurd h hnt⟩
+    show (releaseStack s.cur s.parents n).1.1.live = true
+    rw [hlow.1.live]; exact hl
   | stop l =>
     show _ ∧ ((s.cur.setStop l).2 ≠ .terminated → (s.cur.setStop l).1.live = true) ∧
       ((s.cur.setStop l).2 = .terminated → (s.cur.setStop l).1.status = StatusKilled)
-    refine ⟨rfl, ?_⟩
+    refine ⟨LowerL.refl _, ?_⟩
     unfold Frame.setStop
     simp only
     split
     · exact ⟨fun h => absurd rfl h, fun _ => rfl⟩
     · exact ⟨fun _ => hl, (fun h => nomatch h)⟩
-  | due => exact ⟨rfl, fun _ => hl, (fun h => nomatch h)⟩
+  | due => exact ⟨LowerL.refl _, fun _ => hl, (fun h => nomatch h)⟩
 
 theorem local_hard {s : St} (o : Op) (ho : localOp o = true) : (step s o).1.cur.hard = s.cur.hard := by
   cases o with
@@ -76,7 +74,7 @@ theorem local_hard {s : St} (o : Op) (ho : localOp o = true) : (step s o).1.cur.
   | pop => cases ho
   | reqCpu n => exact (requireCPU_same s.cur n).1
   | reqMem n => exact (requireMem_same s.cur n).1
-  | relMem n => exact (releaseMem_same s.cur n).1
+  | relMem n => exact (releaseStack_lower s.cur s.parents n).1.same.1
   | stop l => exact (setStop_same s.cur l).1
   | due => rfl
 
@@ -118,33 +116,42 @@ theorem propagate_cases (m child : Frame) (res : TermRes) :
     · exact Or.inl rfl
 
 /-- the call, with its deferred PopContext resolved: under the invariant the pop always succeeds and
-restores the parent charged with what the child used -/
+restores the parent — the frame `p'` that is below the child when the body ends: the caller's
+frame, possibly with a lower memory counter if the body released memory of the caller (8007e69) —
+charged with what the child used -/
 theorem call_unfold (a : Acc) (d : CtxDef) (body : List Item) (a1 : Acc) (ex : Exit)
     (hr : runBody { a with st := push a.st d } body = (a1, ex))
     (gb : Good { a with st := push a.st d } a1 ex) (hl : a.st.cur.live = true) :
-    FrameOk (afterBody ex a1.st).cur ∧ Chain (afterBody ex a1.st).cur a.st.cur ∧ FrameOk a.st.cur ∧
-    ChainInv a.st.cur a.st.parents ∧
-    runItem a (.call d body) =
-      afterPop a1 ex (afterBody ex a1.st) (charged a.st.cur (afterBody ex a1.st).cur) a.st.parents := by
-  have hi2 := inv_afterBody ex gb.inv
-  have hpar2 : (afterBody ex a1.st).parents = a.st.cur :: a.st.parents :=
-    (afterBody_same ex a1.st).1.trans gb.parents
-  obtain ⟨hc2, hch2⟩ := hi2
-  rw [hpar2] at hch2
-  obtain ⟨hcp, hp, hpl, hrest⟩ := hch2
-  have hpop : pop (afterBody ex a1.st) = (⟨charged a.st.cur (afterBody ex a1.st).cur, a.st.parents⟩, .ok) := by
-    have := pop_ok (ps := a.st.parents) hc2 hp hpl hcp
-    rw [← hpar2] at this
-    exact this
-  refine ⟨hc2, hcp, hp, hrest, ?_⟩
-  unfold runItem
-  simp only [hr, hpop]
+    ∃ p' ps', a1.st.parents = p' :: ps' ∧ Lower p' a.st.cur ∧ LowerL ps' a.st.parents ∧
+      FrameOk (afterBody ex a1.st).cur ∧ Chain (afterBody ex a1.st).cur p' ∧ FrameOk p' ∧ p'.live = true ∧
+      ChainInv p' ps' ∧
+      runItem a (.call d body) =
+        afterPop a1 ex (afterBody ex a1.st) (charged p' (afterBody ex a1.st).cur) ps' := by
+  have hpar : LowerL a1.st.parents (a.st.cur :: a.st.parents) := gb.parents
+  cases hps : a1.st.parents with
+  | nil => rw [hps] at hpar; cases hpar
+  | cons p' ps' =>
+    rw [hps] at hpar
+    cases hpar with
+    | cons hlp hlps =>
+      have hi2 := inv_afterBody ex gb.inv
+      have hpar2 : (afterBody ex a1.st).parents = p' :: ps' := (afterBody_same ex a1.st).1.trans hps
+      obtain ⟨hc2, hch2⟩ := hi2
+      rw [hpar2] at hch2
+      obtain ⟨hcp, hp, hpl, hrest⟩ := hch2
+      have hpop : pop (afterBody ex a1.st) = (⟨charged p' (afterBody ex a1.st).cur, ps'⟩, .ok) := by
+        have := pop_ok (ps := ps') hc2 hp hpl hcp
+        rw [← hpar2] at this
+        exact this
+      refine ⟨p', ps', rfl, hlp, hlps, hc2, hcp, hp, hpl, hrest, ?_⟩
+      unfold runItem
+      simp only [hr, hpop]
 
 mutual
   theorem good_body (a : Acc) (body : List Item) (hw : wfBody body = true) (hi : Inv a.st)
       (hl : a.st.cur.live = true) : Good a (runBody a body).1 (runBody a body).2 := by
     match body with
-    | [] => exact ⟨hi, rfl, rfl, fun _ => hl, (fun _ h => nomatch h), fun h => h⟩
+    | [] => exact ⟨hi, LowerL.refl _, rfl, fun _ => hl, (fun _ h => nomatch h), fun h => h⟩
     | it :: rest =>
       have hw' : it.wf = true ∧ wfBody rest = true := by
         have := hw; unfold wfBody at this; simpa using this
@@ -164,7 +171,7 @@ mutual
   theorem good_item (a : Acc) (it : Item) (hw : it.wf = true) (hi : Inv a.st)
       (hl : a.st.cur.live = true) : Good a (runItem a it).1 (runItem a it).2 := by
     match it with
-    | .err => exact ⟨hi, rfl, rfl, fun _ => hl, (fun _ h => nomatch h), fun h => h⟩
+    | .err => exact ⟨hi, LowerL.refl _, rfl, fun _ => hl, (fun _ h => nomatch h), fun h => h⟩
     | .op o =>
       have ho : localOp o = true := by unfold Item.wf at hw; exact hw
       have hs := local_step (s := a.st) o ho hl
@@ -186,13 +193,14 @@ mutual
       cases hr : runBody { a with st := push a.st d } body with
       | mk a1 ex =>
         rw [hr] at gb
-        obtain ⟨hc2, hcp, hp, hrest, hrun⟩ := call_unfold a d body a1 ex hr gb hl
+        obtain ⟨p', ps', _, hlp, hlps, hc2, hcp, hp, hpl, hrest, hrun⟩ := call_unfold a d body a1 ex hr gb hl
         rw [hrun]
-        have hs := charged_same a.st.cur (afterBody ex a1.st).cur
-        have hinv3 : Inv ⟨charged a.st.cur (afterBody ex a1.st).cur, a.st.parents⟩ :=
+        have hs := charged_same p' (afterBody ex a1.st).cur
+        have hh3 : (charged p' (afterBody ex a1.st).cur).hard = a.st.cur.hard := hs.1.trans hlp.same.1
+        have hinv3 : Inv ⟨charged p' (afterBody ex a1.st).cur, ps'⟩ :=
           ⟨charged_frameOk hc2 hp hcp, chainInv_congr hs.1 hs.2.2.1 hrest⟩
-        have hlive3 : (charged a.st.cur (afterBody ex a1.st).cur).live = true := by
-          unfold Frame.live; rw [hs.2.2.2.1]; exact hl
+        have hlive3 : (charged p' (afterBody ex a1.st).cur).live = true := by
+          unfold Frame.live; rw [hs.2.2.2.1]; exact hpl
         have hpoppedK : ∀ r, ex = .killed r → (afterBody ex a1.st).cur.popped.status = StatusKilled := by
           intro r hr'
           have hk := gb.killed r hr'
@@ -200,9 +208,9 @@ mutual
           unfold Frame.popped Frame.live; rw [hk]; simp [StatusKilled, StatusLive]; exact hk
         unfold afterPop
         cases ex with
-        | crashed => exact ⟨hinv3, rfl, hs.1, fun _ => hlive3, (fun _ h => nomatch h), gb.truthful⟩
+        | crashed => exact ⟨hinv3, hlps, hh3, fun _ => hlive3, (fun _ h => nomatch h), gb.truthful⟩
         | done =>
-          refine ⟨hinv3, rfl, hs.1, fun _ => hlive3, (fun _ h => nomatch h), fun h r hr => ?_⟩
+          refine ⟨hinv3, hlps, hh3, fun _ => hlive3, (fun _ h => nomatch h), fun h r hr => ?_⟩
           rcases List.mem_cons.mp hr with rfl | hr
           · have hlv := gb.live (fun _ h => nomatch h)
             refine ⟨fun _ => ?_, (fun h => nomatch h), (fun h => by obtain ⟨_, h⟩ := h; cases h), (fun h => nomatch h)⟩
@@ -211,7 +219,7 @@ mutual
             unfold Frame.popped; rw [if_pos hlv]
           · exact gb.truthful h r hr
         | error =>
-          refine ⟨hinv3, rfl, hs.1, fun _ => hlive3, (fun _ h => nomatch h), fun h r hr => ?_⟩
+          refine ⟨hinv3, hlps, hh3, fun _ => hlive3, (fun _ h => nomatch h), fun h r hr => ?_⟩
           rcases List.mem_cons.mp hr with rfl | hr
           · refine ⟨(fun h => nomatch h), fun _ => ?_, (fun h => by obtain ⟨_, h⟩ := h; cases h), (fun h => nomatch h)⟩
             show (afterBody Exit.error a1.st).cur.popped.status = StatusError
@@ -220,20 +228,20 @@ mutual
           · exact gb.truthful h r hr
         | killed res =>
           simp only
-          rcases propagate_cases (charged a.st.cur (afterBody (Exit.killed res) a1.st).cur)
+          rcases propagate_cases (charged p' (afterBody (Exit.killed res) a1.st).cur)
               (afterBody (Exit.killed res) a1.st).cur.popped res with e | ⟨e, _, _⟩
           · rw [e]
             simp only
-            refine ⟨hinv3, rfl, hs.1, fun _ => hlive3, (fun _ h => nomatch h), fun h r hr => ?_⟩
+            refine ⟨hinv3, hlps, hh3, fun _ => hlive3, (fun _ h => nomatch h), fun h r hr => ?_⟩
             rcases List.mem_cons.mp hr with rfl | hr
             · exact ⟨(fun h => nomatch h), (fun h => nomatch h), fun _ => hpoppedK res rfl, (fun h => nomatch h)⟩
             · exact gb.truthful h r hr
           · rw [e]
             simp only
-            have hk : Inv ⟨(charged a.st.cur (afterBody (Exit.killed res) a1.st).cur).kill, a.st.parents⟩ :=
-              ⟨frameOk_kill hinv3.1, chainInv_congr (c := charged a.st.cur (afterBody (Exit.killed res) a1.st).cur)
-                (ps := a.st.parents) rfl rfl hinv3.2⟩
-            exact ⟨hk, rfl, hs.1, fun h => absurd rfl (h res), fun _ _ => rfl, gb.truthful⟩
+            have hk : Inv ⟨(charged p' (afterBody (Exit.killed res) a1.st).cur).kill, ps'⟩ :=
+              ⟨frameOk_kill hinv3.1, chainInv_congr (c := charged p' (afterBody (Exit.killed res) a1.st).cur)
+                (ps := ps') rfl rfl hinv3.2⟩
+            exact ⟨hk, hlps, hh3, fun h => absurd rfl (h res), fun _ _ => rfl, gb.truthful⟩
 end
 
 end GoluaVerif.Proofs.CallCtx
